@@ -577,7 +577,10 @@ class Unit:
                 sm = re.match(r'(pub\s+)?static\s+(\w+)\s*:\s*&\[u8\]\s*=\s*b"([^"]*)";', t.strip())
                 if sm:
                     bs = ', '.join(str(b) for b in sm.group(3).encode())
-                    t = 'pub exec const %s: &\'static [u8] = &[%s];' % (sm.group(2), bs)
+                    nm = sm.group(2)
+                    t = ('pub open spec fn %s_spec() -> Seq<u8> { seq![%s] }\n'
+                         'pub exec const %s: &\'static [u8]\n    ensures %s@ == %s_spec()\n{\n    let r: &\'static [u8] = &[%s];\n    assert(r@ =~= %s_spec());\n    r\n}'
+                         % (nm, ', '.join(str(b) + 'u8' for b in sm.group(3).encode()), nm, nm, nm, ', '.join(str(b) + 'u8' for b in sm.group(3).encode()), nm))
                     self.rewrites.setdefault(d[2], Counter()).hit('R10')
                 self.emit(t)
                 i += 1
@@ -712,6 +715,8 @@ class Unit:
         if opts.get('impl'):
             self.out.append('impl %s {' % opts['impl'])
         fnrec['sig_line0'] = len(self.out) + 1
+        if opts.get('isolation') == 'false':
+            self.out.append('#[verifier::loop_isolation(false)]')
         self.emit(sig.rstrip())
         if spec['requires']:
             self.out.append('    requires')
